@@ -761,21 +761,21 @@ func runC12(rep *mc.Reporter) {
 		}
 		encode("single", [][]int{c})
 	}
-	// F2: every pair of commands with <= 2 arguments (quick) / small <= 3 plus long <= 2 (thorough)
-	f2 := c12Commands(withBig, 2)
-	f2pairs := map[int]bool{}
-	for i := range f2 {
-		f2pairs[i] = true
-	}
+	// F2: every pair of commands with <= 2 small arguments or the one long argument (quick);
+	// <= 2 arguments over the whole alphabet or <= 3 small arguments (thorough)
+	f2 := append(c12Commands(small, 2), []int{c12Big})
+	nPairSplit := len(f2) // commands short enough for the pair-of-split-points enumeration
 	if thorough {
+		f2 = c12Commands(withBig, 2)
+		nPairSplit = len(f2)
 		f2 = append(f2, c12Commands(small, 3)[len(c12Commands(small, 2)):]...)
 	}
 	for i, a := range f2 {
 		for j, b := range f2 {
 			for _, hb := range [][]int{{0, 0, 0}, {0, 1, 0}} {
-				decode("pair", [][]int{a, b}, hb, thorough && f2pairs[i] && f2pairs[j])
+				decode("pair", [][]int{a, b}, hb, thorough && i < nPairSplit && j < nPairSplit)
 			}
-			if f2pairs[i] && f2pairs[j] {
+			if i < nPairSplit && j < nPairSplit {
 				encode("pair", [][]int{a, b})
 			}
 		}
